@@ -41,7 +41,7 @@ SPEC = dict(
         'set_done': dict(file=CPP, sig=r'void async_auto_reset_event::set_done\(\) noexcept', ctx=aare_ctx),
         'try_reset': dict(file=CPP, sig=r'bool async_auto_reset_event::try_reset\(\) noexcept', ctx=aare_ctx),
         'next_continuation': dict(file=H, sig=r'\[evt, &stopCallback\]\(\) noexcept', within=VIEW, ctx=lam_ctx, must_contain=[r'try_reset']),
-        'stop_callback_body': dict(file=H, sig=r'auto stopCallback = \[evt\]\(\) noexcept', within=VIEW, ctx=lam_ctx, must_contain=[r'set_done']),
+        'stop_callback_body': dict(file=H, sig=r'auto stopCallback = \[evt\]\(\) noexcept', within=VIEW, ctx=lam_ctx, must_contain=[r'evt->']),
         'cleanup_body': dict(file=H, sig=r'unifex::defer\(\[evt = evt_\]\(\) noexcept', within=VIEW, ctx=lam_ctx, must_contain=[r'just_done']),
         'callback_factory': dict(file=H, sig=r'\[stopToken, evt\]\(\) noexcept', within=VIEW, ctx=factory_ctx, must_contain=[r'std::in_place']),
         'wait_then': dict(file=H, sig=r'\[evt\]\(auto& stopCallback\) noexcept', within=VIEW, ctx=wait_ctx, must_contain=[r'async_wait']),
